@@ -249,6 +249,11 @@ fn grid_events(rng: &mut StdRng, tries: usize, out: &mut Vec<Value>) {
             }
             grid.push(row);
         }
+        // ragged layouts: one block row (the first, or a later one) gets a block more or a block less than the others
+        if nr >= 2 && rng.gen::<f64>() < 0.12 {
+            let i = rng.gen_range(0..nr);
+            if rng.gen::<bool>() || grid[i].len() == 1 { let extra = build(hs[i], rng.gen_range(0..=2), 0, 0); grid[i].push(extra); } else { grid[i].pop(); }
+        }
         out.push(guarded("hvcatg", || {
             let rows: Vec<Vec<&CscMatrix<f64>>> = grid.iter().map(|r| r.iter().collect()).collect();
             let refs: Vec<&[&CscMatrix<f64>]> = rows.iter().map(|r| r.as_slice()).collect();
